@@ -344,6 +344,17 @@ func (ex *Exec) equal(t types.Type, x, y Value, fr *frame) Value {
 			return a == y.(*Cell)
 		}
 	case *types.Pointer:
+		// model objects (foreign handles) are pointers too
+		if ox, ok := x.(*Opaque); ok {
+			oy, _ := y.(*Opaque)
+			if _, yIsCell := y.(*Cell); yIsCell {
+				return ox == nil && isNilPtr(y)
+			}
+			return ox == oy
+		}
+		if oy, ok := y.(*Opaque); ok {
+			return oy == nil && isNilPtr(x)
+		}
 		a, _ := x.(*Cell)
 		b, _ := y.(*Cell)
 		return a == b
